@@ -200,6 +200,17 @@ def run(ctx):
                   rc.where(),
                   'read_connection_confirm yields Ok on a path where the negotiation type is %s / payload kind %s / value source %s '
                   '(failure, echoed request or fast-path replies must be errors)' % (ntype, raw, show(payload)[:60]))
+        # the whole 32-bit selectedProtocol field is validated: no narrowing on the way into the enum conversion
+        if from_result:
+            arg = payload[3][0] if payload[3] else ('unknown', '')
+            narrow = [n for n in walk(arg) if n[0] == 'cast' and re.match(r'^[ui](8|16)$', n[2] or '')]
+            src32 = any(n[0] == 'call' and n[1].endswith('Message::visit') or (n[0] == 'variant' and n[2] == 'U32') for n in walk(arg))
+            tf32 = 'TryFrom<u32>' in payload[1]
+            ctx.check(not narrow and tf32, 'R02.3', 'confirm:width',
+                      'the selected protocol is validated on all 32 bits of the selectedProtocol field (no narrowing before Protocols::try_from)',
+                      rc.where(),
+                      'read_connection_confirm narrows the 32-bit selectedProtocol field (%s) before validating it: a selection such as 0x00000101 is '
+                      'taken for an offered protocol' % ('cast to ' + narrow[0][2] if narrow else payload[1].split(' as ')[-1]))
     ctx.floor('R02.3', 'Ok paths of read_connection_confirm', n_ok, 1)
 
     # ---- R02.4b/R02.5 tpkt::Client::start_ssl / start_nla / Link::start_ssl --------------------
